@@ -71,7 +71,11 @@ def run(ctx):
             ck.ob("C02-R1", st.path, "Released-arm-calls-only-newly_release", set(calls) <= {MOD + "newly_release"}, detail=str(calls))
     ra = ctx.body(MOD + "Mapper::release_all")
     steps = 0
-    for tag, paths in K.segments(ra):
+    segs = list(K.segments(ra))
+    for cp in sorted(ctx.F.bodies):
+        if cp.startswith(ra.path + "::{closure"):
+            segs += list(K.segments(ctx.body(cp)))     # release_all written as an iterator expression steps inside a closure
+    for tag, paths in segs:
         for p in paths:
             for e in p.events:
                 if e.kind == "call" and e.a == MOD + "Mapper::step":
